@@ -23,6 +23,8 @@ L_TWOIT = "P0.1 F I P1.1 F I"
 # two staggered overlapping level-0 tables above a level-1 table that lies only under the tail of the second one
 L_STAG = "P2.1 O R0:-:- P0.1 P1.1 O P1.1 P3.1 O"
 L_STAGb = "P0.1 O R0:-:- P1.1 P3.1 O P0.1 P1.1 O"
+# tables renamed to the legacy LevelDB name NNNNNN.sst while the database is closed (op X)
+L_SST = "P0.1 F P1.1 F X"
 OVL_Q = ["B1~rwr@0/2^" + L_OVL, "B1~rwr@0/2^" + L_OVL2, "B1~rwr@0/1^" + L_OVL3, "B1~rwr@0/1^" + L_OVL3b, "B1~rwr@0/1^" + L_STAG, "B1~rwr@0/1^" + L_STAGb]
 OVL_T = ["B1~rwr@0/3^" + L_OVL, "B1~rwr@0/3^" + L_OVL2, "B1~rwr@0/2^" + L_OVL3, "B1~rwr@0/2^" + L_OVL3b, "B1~rwr@0/2^" + L_STAG, "B1~rwr@0/2^" + L_STAGb]
 # 6 keys; files g=[b..e] in level 2, x1=[a..k] in level 1, F=[c..k] in level 0, a snapshot pins the older version of k;
@@ -49,7 +51,7 @@ def c01_plan(tier):
     if tier == "quick":
         it = ["B1@0/4"] + ["B1,%s@0/2" % t for t in TOGGLES] + ["B2@0/2"]
         it += ["B1@2^" + L_DEEP, "B1,bloom=1,cache=1,mmap=0,snappy=1@2^" + L_DEEP, "B1@2^" + L_TOMB]
-        it += OVL_Q + ["B1~rwr@0/1^" + L_DEEP, "B1,mof=11@0/2^" + L_DEEP, "B2,reuse=1@2^P1.5 O", "B1@0/2^" + L_BOTTOM] + NOCASE_ITEMS + LONGMAN_ITEMS + [SPLIT_CFG + "@0/2^" + L_SPLIT]
+        it += OVL_Q + ["B1~rwr@0/1^" + L_DEEP, "B1,mof=11@0/2^" + L_DEEP, "B2,reuse=1@2^P1.5 O", "B1@0/2^" + L_BOTTOM, "B1@0/2^" + L_SST] + NOCASE_ITEMS + LONGMAN_ITEMS + [SPLIT_CFG + "@0/2^" + L_SPLIT]
     else:
         it = ["B1@0/5"] + ["B1,%s@4/3" % t for t in TOGGLES] + ["B2@3/3", "B2,snappy=1,bloom=1@3/2"]
         # full cross product of the boolean toggles at depth 2 (no dedup)
@@ -79,14 +81,14 @@ def c06_plan(tier):
 
 def c07_plan(tier):
     if tier == "quick":
-        return plan(["B1@3/2", "B1,cmp=1@0/2", NOCASE + "@0/2", "B1@2^" + L_DEEP, "B1@2^" + L_TOMB, "B1,mof=11@1^" + L_DEEP, "B1@1^" + L_BOTTOM])
+        return plan(["B1@3/2", "B1,cmp=1@0/2", NOCASE + "@0/2", "B1@2^" + L_DEEP, "B1@2^" + L_TOMB, "B1,mof=11@1^" + L_DEEP, "B1@1^" + L_BOTTOM, "B1@1^" + L_SST])
     return plan(["B1@4/3", "B1,cmp=1@3/3", NOCASE + "@3/3", NOCASE + "@2^P0.1 F P1.1 F P3.1 P4.1", "B1,snappy=1,bloom=1,mmap=0@3/2", "B2@2/2", "B1@3^" + L_DEEP, "B1@3^" + L_TOMB,
                  "B1@3^I " + L_DEEP, "B1,cmp=1@2^" + L_DEEP, "B1@2^" + L_SNAP, "B1,mof=11@2^I " + L_DEEP, "B1@2^" + L_BOTTOM, "B1,cmp=1@2^" + L_BOTTOM])
 
 
 def c13_plan(tier):
     if tier == "quick":
-        return plan(["B1@4/3", "B1,reuse=1@0/2", "B1@2^I " + L_DEEP, "B1@2^" + L_BIG, "B1,mof=11@1^I " + L_DEEP, "B1@1^I " + L_BOTTOM, "B1@2^" + L_TWOIT, "B1,mof=11@1^" + L_TWOIT])
+        return plan(["B1@4/3", "B1,reuse=1@0/2", "B1@2^I " + L_DEEP, "B1@2^" + L_BIG, "B1,mof=11@1^I " + L_DEEP, "B1@1^I " + L_BOTTOM, "B1@2^" + L_TWOIT, "B1,mof=11@1^" + L_TWOIT, "B1@2^" + L_SST])
     return plan(["B1@3^" + L_TWOIT, "B1@2^P0.1 F P0.1 F I P1.1 F I", "B1,mof=11@2^" + L_TWOIT, "B1@5/4", "B1,reuse=1@4/3", "B1,snappy=1,mmap=0@3/3", "B2@3/2", "B1@3^I " + L_DEEP, "B1@3^" + L_BIG,
                  "B1@3^I " + L_SNAP, "B1,reuse=1@3^" + L_DEEP])
 
@@ -303,7 +305,7 @@ ENGINES["fault"] = "E4: fault-site enumerator over the call log of the in-memory
 
 def c14_plan(tier):
     if tier == "quick":
-        return plan(["B1@4/3", "B1,snappy=1,bloom=1@0/2", "B1,cmp=1@0/2", NOCASE + "@0/2", "B2@0/2"] + LONGMAN_ITEMS + [SPLIT_CFG + "@0/2^" + L_SPLIT, "B1@2^" + L_DEEP, "B1@2^" + L_BIG, "B1@2^" + L_SNAP, "B1@2^" + L_BOTTOM] + OVL_Q)
+        return plan(["B1@4/3", "B1,snappy=1,bloom=1@0/2", "B1,cmp=1@0/2", NOCASE + "@0/2", "B2@0/2"] + LONGMAN_ITEMS + [SPLIT_CFG + "@0/2^" + L_SPLIT, "B1@2^" + L_DEEP, "B1@2^" + L_BIG, "B1@2^" + L_SNAP, "B1@2^" + L_BOTTOM, "B1@2^" + L_SST] + OVL_Q)
     return plan(OVL_T + ["B1@3^" + L_BOTTOM, "B1@5/4", "B1,snappy=1,bloom=1@4/3", "B1,cmp=1@4/3", NOCASE + "@3/3", "B1,reuse=1@3/3", "B2@3/2", SPLIT_CFG + "@0/3^" + L_SPLIT, "B1@3^" + L_DEEP, "B1@3^" + L_BIG,
                  "B1@3^" + L_SNAP, "B1,cmp=1@3^" + L_DEEP, "B1,snappy=1,bloom=1@3^" + L_BIG])
 
